@@ -262,3 +262,6 @@ def check_one(case):
         viol.append((f"survey-json-reload-exception:{type(e).__name__}", str(e)[:200]))
     rich = any(k in json.dumps(wb) for k in ("relevant", "parameters", "::", "trigger", "default", "or_other", "entities", '"x"'))
     return {"outcome": "ok", "nt": rich and not viol, "viol": viol, "tr": ntr}
+
+# as-built additions of the seventh wave (reported with the bound in the evidence)
+BOUND = {k: v + "; seventh wave: " + 'the frozen corpus through both round trips' for k, v in BOUND.items()}
